@@ -11,6 +11,10 @@ class Env:
     pass
 
 
+class Boom(Exception):
+    pass
+
+
 class CoroutinesAdapter:
     def __init__(self, desper, K):
         self.desper = desper
@@ -31,6 +35,9 @@ class CoroutinesAdapter:
 
             def body():
                 for i, (op, n) in enumerate(script, start=1):
+                    if op == 'raise':
+                        env.log.append((g, i, '-'))
+                        raise Boom()
                     if op == 'y':
                         env.log.append((g, i, '-'))
                         if n > 0:
@@ -102,7 +109,7 @@ class CoroutinesAdapter:
             v, ex = guarded(lambda: p.process(args[0] * Q))
         else:
             raise AssertionError(name)
-        ret = 'ok' if ex is None else type(ex).__name__
+        ret = 'ok' if ex is None else ('raised' if isinstance(ex, Boom) else type(ex).__name__)
         del ex
         obs = {'ret': ret, 'log': tuple(env.log), 'type_errors': self.type_errors}
         st, pst, pv, held = {}, {}, {}, {}
